@@ -38,6 +38,8 @@ VARIANTS = {
                       flags=["-O1", "-g", "-DNDEBUG", "-fno-omit-frame-pointer", "-D" + GUARD,
                              "-fsanitize=address", "-fsanitize-recover=address"]),
     "tsan": dict(cc="clang", cxx="clang++", flags=["-O1", "-g", "-DNDEBUG", "-fsanitize=thread"]),
+    # C06: the two-thread histories once more under the race detector (an auxiliary net: a report is a violation, silence proves nothing)
+    "tsanhooks": dict(cc="clang", cxx="clang++", flags=["-O1", "-g", "-DNDEBUG", "-D" + GUARD, "-fsanitize=thread"]),
 }
 
 
